@@ -308,7 +308,7 @@ fn run(tier: Tier, seed: u64) -> i32 {
                 m.start = m.rules.len() - 1;
                 let mut parts = vec![old_start];
                 for r in 0..m.rules.len() - 1 {
-                    if r != old_start && (m.parts.contains(&r) || r2.chance(1, 3)) {
+                    if r != old_start && (m.parts.contains(&r) || r2.chance(1, 2)) {
                         parts.push(r);
                     }
                 }
@@ -318,6 +318,13 @@ fn run(tier: Tier, seed: u64) -> i32 {
             }
         }
         all.push((label, m.to_text()));
+    }
+    if let Ok(dir) = std::env::var("DETSIM_DUMP") {
+        // diagnostic: write the workload grammars out
+        let _ = std::fs::create_dir_all(&dir);
+        for (i, (name, text)) in all.iter().enumerate() {
+            let _ = std::fs::write(format!("{dir}/{i:04}.llw"), format!("// {name}\n{text}"));
+        }
     }
     let probe_bin = build_probe();
     let mut verdicts = vcore::Verdicts::new(PROP);
